@@ -205,12 +205,26 @@ package gtfs
 //@   loop 2 invariant csvOK(csv)
 //@   loop 2 decreases remaining(csv.csvReader)
 
+// a calendar row is accepted iff both dates parse and no required cell was found blank. (The seven weekday columns are
+// read through an array of column handles built in loop 1; tying each handle to its header by name needs facts about a
+// slice literal across calls that the solvers did not establish in time, so the weekday flags are not part of this
+// contract: see DESIGN.md, C11 limits.)
+//@ pure func calAccepted(f *csv.File) bool = validDate("20060102", col(f, "start_date")) && validDate("20060102", col(f, "end_date")) && len(f.currentRow.missingKeys) == 0
+//@ pure func calFaithful(S Service, f *csv.File, tz *time.Location) bool = S.Id == col(f, "service_id") && S.StartDate == parsedDate("20060102", col(f, "start_date"), tz) && S.EndDate == parsedDate("20060102", col(f, "end_date"), tz) && len(S.AddedDates) == 0 && cap(S.AddedDates) == 0 && len(S.RemovedDates) == 0 && cap(S.RemovedDates) == 0
+
 //@ func parseCalendar
-//@   props C01 C05 C09 C11
+//@   props C01 C05 C06 C09 C11
 //@   requires csvOK(f) && m != nil
+//@   requires [no-exceptions-yet] forall id string :: has(m, id) ==> len(m[id].AddedDates) == 0 && cap(m[id].AddedDates) == 0 && len(m[id].RemovedDates) == 0 && cap(m[id].RemovedDates) == 0
+//@   ensures [no-exceptions-yet] forall id string :: has(m, id) ==> len(m[id].AddedDates) == 0 && cap(m[id].AddedDates) == 0 && len(m[id].RemovedDates) == 0 && cap(m[id].RemovedDates) == 0
 //@   loop 1 invariant csvOK(f) && len(f.missingRequiredColumns) >= pre(len(f.missingRequiredColumns))
 //@   loop 1 invariant forall j int :: 0 <= j && j < $i ==> dayColumns[j].f == f && ((0 <= dayColumns[j].i && dayColumns[j].i < len(f.headerContent)) || len(f.missingRequiredColumns) > 0)
-//@   loop 2 invariant csvOK(f)
+//@   loop 2 invariant csvOK(f) && f.csvReader == old(f.csvReader)
+//@   loop 2 invariant [no-exceptions-yet] forall id string :: has(m, id) ==> len(m[id].AddedDates) == 0 && cap(m[id].AddedDates) == 0 && len(m[id].RemovedDates) == 0 && cap(m[id].RemovedDates) == 0
+//@   loop 2 step [rows-with-missing-keys-are-inert] len(f.currentRow.missingKeys) > 0 ==> (forall k string :: has(m, k) == athead(2, has(m, k)) && m[k] == athead(2, m[k]))
+//@   loop 2 step [rows-with-unparseable-dates-are-inert] len(f.currentRow.missingKeys) == 0 && (!validDate("20060102", col(f, "start_date")) || !validDate("20060102", col(f, "end_date"))) ==> (forall k string :: has(m, k) == athead(2, has(m, k)) && m[k] == athead(2, m[k]))
+//@   loop 2 step [other-services-untouched] len(f.currentRow.missingKeys) == 0 ==> (forall k string :: k != col(f, "service_id") ==> has(m, k) == athead(2, has(m, k)) && m[k] == athead(2, m[k]))
+//@   loop 2 step [accepted-row-becomes-the-service-of-its-id] calAccepted(f) ==> has(m, col(f, "service_id")) && calFaithful(m[col(f, "service_id")], f, timezone)
 //@   loop 2 decreases remaining(f.csvReader)
 
 // parseTime: success and value are those of time.ParseInLocation("20060102", s, timezone), i.e. (assumed contract
